@@ -11,7 +11,7 @@
  "includes": ["e2fsck", "lib/support"],
  "sources": ["lib/ext2fs/blknum.c"],
  "unwind": 12,
- "cbmc_flags": ["--object-bits", "12"],
+ "cbmc_flags": ["--object-bits", "12", "--slice-formula"],
  "unwind_reason": "check_ext_attr's only loop (the entry walk) is cut by its named anchor VERIF_INV_PASS1_EA_BLOCK_ENTRIES (hooks-pending/p1x.diff); check_large_ea_inode and size_to_quota_blocks are loop-free; inc_ea_inode_refs (its own loop: unit p1x_inc_ea_inode_refs) and mark_block_used are replaced by contracts; the bound serves the DFCC library loops",
  "functions": ["e2fsck/pass1.c:check_ext_attr", "e2fsck/pass1.c:check_large_ea_inode"],
  "assumes": ["NEEDS the hooks in hooks-pending/p1x.diff (named anchors VERIF_INV_PASS1_EA_BLOCK_ENTRIES / VERIF_GHOST_PASS1_EA_BLOCK_ENTRY)",
@@ -32,13 +32,12 @@
  "tier": "wip",
  "tier_after_hooks": "quick",
  "harness": "h_eab_sound",
- "defines": ["P1X_EXPERIMENT=(p1x_e_inum==0u)", "P1X_NO_J"],
  "loop_contracts": true,
  "replace": ["region_allocate", "mark_block_used", "inc_ea_inode_refs"],
  "includes": ["e2fsck", "lib/support"],
  "sources": ["lib/ext2fs/blknum.c"],
  "unwind": 12,
- "cbmc_flags": ["--object-bits", "12"],
+ "cbmc_flags": ["--object-bits", "12", "--slice-formula"],
  "unwind_reason": "as p1x_ea_block_entry_detect",
  "functions": ["e2fsck/pass1.c:check_ext_attr", "e2fsck/pass1.c:check_large_ea_inode"],
  "assumes": ["as p1x_ea_block_entry_detect (hooks, 256-byte stand-in block, stubs), ext_attr_ver 2 (the default; the v1 name rules are not part of 'healthy')",
